@@ -113,6 +113,7 @@ var generators = []generator{
 	{"size-limits", []string{"R18b", "R18c", "R18d"}, func(c *Ctx, _ map[string]bool) { sizeLimitRules(c) }},
 	{"status-mapping", []string{"R17d"}, func(c *Ctx, _ map[string]bool) { statusMapping(c) }},
 	{"file-handles", []string{"R14k", "R04h"}, func(c *Ctx, _ map[string]bool) { fileHandleRules(c) }},
+	{"nilled-elements", []string{"R14l"}, func(c *Ctx, _ map[string]bool) { nilledElements(c) }},
 }
 
 // runOwned runs the generators that can emit one of the property's rules.
@@ -186,8 +187,8 @@ func init() {
 	prop("C13", []string{"R13a", "R13b", "R13c", "R13d", "R13e", "R13f", "R13g"},
 		structural+"Decided: (R13a/b/c) the inventory of registered gRPC methods is read from the service descriptors, each is classified mutating iff its handler reaches Cache.Put, and the unauthenticated-read allow-list contains only registered, non-mutating methods; (R13d) in each auth interceptor every path to the handler is the health check, an allowed read, or a passed credential check; (R13e/R13f) for every valuation of the configuration the gRPC server and every HTTP route (/, /status, /metrics) is wrapped by the interceptor / handler that valuation requires; (R13g) the unauthenticated wrapper forwards only GET and HEAD and every Put in the HTTP handler is behind the PUT method and the write-certificate check.",
 		"Not decided: the cryptographic verification itself (crypto/tls, go-http-auth, LDAP library), TLS handshake configuration beyond ClientAuth, password file parsing.")
-	prop("C14", []string{"R14a", "R14b", "R14c", "R14d", "R14e", "R14f", "R14g", "R14h", "R14i", "R14j", "R14k", "R03a", "R04a", "R16c"},
-		structural+"Decided: (R14a) every field selection through a nilable protobuf message pointer in request code is dominated by a non-nil fact; (R14b) every division by a non-constant is dominated by a non-zero fact; (R14c) every non-induction index is dominated by a length bound; (R14g) no log.Fatal / os.Exit / panic is reachable from a handler, interceptor or cache method; (R14d) every closer obtained on a request path is closed, returned or handed over on every exit; (R14e) every pipe's read end is terminated so writers cannot block for ever; (R14f) goroutines started by a request can always finish (sends never exceed channel capacity); (R14h) every digest put into the list handed to the presence check is non-nil (the check dereferences its elements while holding the cache lock); (R03a/R04a) reservations and temp files are released on every exit; (R14j) disk.Put gives up its reader (which disarms its deferred drain) only after the verifying writer consumed it, so a pipe writer feeding Put can always finish; (R14k) no method is called on an *os.File on a path where the open that produced it failed.",
+	prop("C14", []string{"R14a", "R14b", "R14c", "R14d", "R14e", "R14f", "R14g", "R14h", "R14i", "R14j", "R14k", "R14l", "R03a", "R04a", "R16c"},
+		structural+"Decided: (R14a) every field selection through a nilable protobuf message pointer in request code is dominated by a non-nil fact; (R14b) every division by a non-constant is dominated by a non-zero fact; (R14c) every non-induction index is dominated by a length bound; (R14g) no log.Fatal / os.Exit / panic is reachable from a handler, interceptor or cache method; (R14d) every closer obtained on a request path is closed, returned or handed over on every exit; (R14e) every pipe's read end is terminated so writers cannot block for ever; (R14f) goroutines started by a request can always finish (sends never exceed channel capacity); (R14h) every digest put into the list handed to the presence check is non-nil (the check dereferences its elements while holding the cache lock); (R03a/R04a) reservations and temp files are released on every exit; (R14j) disk.Put gives up its reader (which disarms its deferred drain) only after the verifying writer consumed it, so a pipe writer feeding Put can always finish; (R14k) no method is called on an *os.File on a path where the open that produced it failed; (R14l) slice elements that a callee may have cleared (the digests found locally) are nil-tested before they are dereferenced.",
 		"Not decided: panics inside third-party libraries, unbounded memory from huge messages, termination of loops over attacker-controlled data, goroutines of the gRPC/HTTP servers themselves.")
 	prop("C15", []string{"R15a", "R15b", "R15c", "R15d", "R15e"},
 		structural+"Decided: (R15a) the kind -> key-prefix and kind -> directory tables are injective, prefix-free and inverted consistently by the path and loader code; (R15b) compressed reads are CAS-only; (R15c) the kind argument of every Cache call in package server is a constant or derived from the URL by the one parser; (R15d) every action-cache access is dominated by the mangling step with the request's own instance name and CAS keys are never mangled; TransformActionCacheKey is the identity exactly for the empty instance; (R15e) request hashes are validated before they become file names.",
